@@ -124,7 +124,7 @@ def fixed(vc):
         from resonaate.physics.time.stardate import datetimeToJulianDate
         import resonaate.physics.transforms.methods as tm
         start = datetime.datetime(2018, 3, 4, 5, 6, 7) + datetime.timedelta(seconds=vc.int("off", 0, 86400 * 900))
-        lla = np.array([vc.real("lat", -1.5, 1.5), vc.real("lon", -3.1, 3.1), vc.real("alt", 0, 5)])
+        lla = np.array([vc.real("lat", -1.5, 1.5), vc.real("lon", -3.1, 3.1), vc.real("alt", -0.5, 5)])
         x = tm.lla2ecef(lla)
         o = Terrestrial(datetimeToJulianDate(start), x)
         vc.assume(tf >= t0)
@@ -147,7 +147,7 @@ def config(vc):
         from resonaate.scenario.clock import ScenarioClock
         from resonaate.dynamics import dynamicsFactory
         from resonaate.physics.transforms.methods import lla2ecef
-        lat, lon, alt = vc.real("lat", -89, 89), vc.real("lon", -179, 179), vc.real("alt", 0, 9)
+        lat, lon, alt = vc.real("lat", -89, 89), vc.real("lon", -179, 179), vc.real("alt", -0.5, 9)  # (sites below the ellipsoid exist: Dead Sea -0.43 km)
         k = vc.int("steps_before", 0, 50)
         from resonaate.physics.time.stardate import ScenarioTime, datetimeToJulianDate
         start = datetime.datetime(2021, 3, 30, 16, 55, 7) + datetime.timedelta(seconds=vc.int("start_off", 0, 86400 * 300))
@@ -169,7 +169,7 @@ def config(vc):
         return site
     vc.stub(TM + "lla2ecef", lla_stub)
     import resonaate.scenario.config.platform_config as pc
-    lat, lon, alt = vc.real("lat", -90, 90), vc.real("lon", -180, 180), vc.real("alt", 0, 9)
+    lat, lon, alt = vc.real("lat", -90, 90), vc.real("lon", -180, 180), vc.real("alt", -0.5, 9)
     LLA = vc.cls(CFG + "LLAStateConfig")
     st = object.__new__(LLA)
     st.__dict__.update(latitude=lat, longitude=lon, altitude=alt)
